@@ -33,15 +33,15 @@ chk('C02',
     'T1: on 13 symbolically re-laid-out trees every node that moves under the put_src-offset shift, and every ancestor, loses its cached answers (poison entries) for all layouts/spots/sizes. '
     'P1/P2: [read-only queries of a symbolic kind on all nodes] -> [edit with symbolic indices over Z, or comment/docstring accessor on a symbolic target, or nothing] -> ~15 kinds of answers '
     '(loc, bloc, pars, own_src in 3 variants asked in a rotating order, byte coordinates, text at loc, parent/pfield/root, next/prev/first/last child, view lengths, docstring, line comment) '
-    'on EVERY node equal the same answers on FST(root.src) built from scratch; root identity kept; 3-step histories after comment puts.',
-    'Bounds: 29 carriers + 1 accessor carrier, listed query kinds, histories <= 3 steps. Outside: other programs and queries.',
+    'on EVERY node equal the same answers on FST(root.src) built from scratch; root identity kept; 3-step histories after comment puts. P3: par() / par(force) / unpar() / unpar(node) on a symbolic expression ordinal of 6 carriers (tight, multi-line, non-ASCII layouts) after symbolic pre-queries.',
+    'Bounds: 34 carriers + 1 accessor carrier + 6 parenthesis carriers, listed query kinds, histories <= 3 steps. Outside: other programs and queries. One defect fixed (stale pars() after unpar()).',
     'symbolic execution of edit entry points with symbolic indices and query schedules; oracle = the same queries on a freshly parsed tree',
     'DESIGN.md section 4 C02')
 chk('C04',
     'K1: leading_trivia / trailing_trivia with the surrounding lines made of symbolic characters over the classes the scanners distinguish: the selected region never contains a code line, stays within the bound, '
     'honours none/block/all/line and the blank-line budget (which lines an edit may touch). K2: get_trivia_params == the documented option table with symbolic N in +N/-N. '
     'P1: edits with symbolic indices on comment-rich carriers: tokenize-based accounting (COMMENT/NAME/NUMBER/STRING multisets after = before - removed elements + new elements), '
-    'no comment lost on a pure insertion, with trivia=(False, False) no comment lost outside the removed span, lines outside the container byte-identical.',
+    'no comment lost on a pure insertion, with trivia=(False, False) no comment lost outside the removed span, with trivia=(\'all\', \'all\') none lost outside the gap between the neighbouring elements, lines outside the container byte-identical. P2: comment put + block delete history.',
     'Bounds: 2-3 free lines x 2 symbolic characters per kernel cell; listed carriers. Two comment-loss defects of sequence insertion are listed as known findings (known_findings.json).',
     'symbolic execution of trivia selection over symbolic characters; tokenize multiset accounting at leaves of symbolic-index edits',
     'DESIGN.md section 4 C04')
@@ -69,8 +69,9 @@ chk('C17',
 chk('C20',
     'K1: the option store, one cell per option: value over a 39-value vocabulary (all documented forms + near misses), a second option (valid / unknown / invalid), raising blocks, nested blocks and inner set_options: '
     'invalid => rejected with get_options() identical (validate-all-then-update), otherwise exactly the named options change and are restored exactly on block exit, accept/reject == documented value grammar. '
-    'P1: an option passed to one edit never changes the defaults (also on raise), per-call result == per-block result, next call unaffected, symbolic slice bounds.',
-    'Threads are OUTSIDE the claim: the symbolic executor is single-threaded (no schedule exploration). One defect fixed (trivia="" accepted).',
+    'P1: an option passed to one edit never changes the defaults (also on raise), per-call result == per-block result, next call unaffected, symbolic slice bounds. P2: per-call / per-block options of a QUERY (own_src docstr) in all orders. '
+    'P3: two real threads, each editing its own tree under its own defaults / blocks / per-call options (incl. a failing edit and a raising block), with the SCHEDULE symbolic: which thread is preempted and after how many executed source lines of pfst code (every one of the ~5,000 + ~7,000 line boundaries), the other then runs to completion; each thread\'s observations equal its solo run.',
+    'Threads: one preemption per run at source-line granularity, two threads (sys.settrace hook places the preemption; pfst code in the worker threads runs concretely, only the schedule is symbolic); more preemptions, bytecode-level races and free-threaded builds are outside. One defect fixed (trivia="" accepted).',
     'symbolic execution of check_options/set_options/options()/get_option with symbolic value and nesting choices; reference = documented grammar',
     'DESIGN.md section 4 C20')
 
@@ -78,15 +79,15 @@ chk('C20',
 chk('C05',
     'What a solver can reach of C05: the code pfst adds AROUND the C parser. K1: _astloc_from_src / _offset_linenos / _syntax_error_in_loc == direct definitions for symbolic sources and all integers. '
     'K2: _has_trailing_comma/_semicolon == an independent scanner with multi-byte text before the position. K3: _verify_no_close_delimiters raises exactly when the delimiter depth outside the first element goes negative '
-    '(the guard that keeps "a),(b" from being accepted because of the wrapper). P1: 25 fragments x their extended parse modes == the sub-tree of the embedding construct parsed by CPython with positions relative to the fragment, 22 wrapper-escape / invalid texts rejected.',
+    '(the guard that keeps "a),(b" from being accepted because of the wrapper). P1: 31 fragments x their extended parse modes == the sub-tree of the embedding construct parsed by CPython with positions relative to the fragment, 22 wrapper-escape / invalid texts rejected. P2: 93 (fragment, mode) rows over 33 modes incl. every special slice x up to 6 layouts (trailing comment, split lines, non-ASCII names, wide spacing), same oracle.',
     'NOT claimed: the main clause over ARBITRARY source text (it has to pass through ast.parse, C code; no symbolic dimension survives) - stated in DESIGN.md section 5 and level_note. Bounds: sources <= 5 symbolic characters, listed fragment tables.',
     'symbolic execution of the position fix-up and wrapper-escape guards in parsex over symbolic characters/integers; table of fragments judged by CPython for the mode wrappers',
     'DESIGN.md section 4 C05')
 chk('C07',
-    'P1: get_slice / cut on 29 carriers with (start, stop) symbolic over Z: source tree byte-identical incl. every position after a copy; the piece, re-rendered and parsed by CPython inside the same kind of container, is exactly old[s:e]; '
+    'P1: get_slice / cut on 34 carriers with (start, stop) symbolic over Z and the option set symbolic over 10 trivia / pars settings: source tree byte-identical incl. every position after a copy; the piece, re-rendered and parsed by CPython inside the same kind of container, is exactly old[s:e]; '
     'expression pieces equal CPython\'s parse of their own source incl. positions; cut returns what copy returns and leaves what delete leaves; NAME/NUMBER/STRING/COMMENT multisets: original == remainder + piece. '
     'P2: copy() of every node leaves the tree untouched and parses alone to the same structure. T1: copies under Unicode re-lettering (all code points >= U+0080 at marked positions).',
-    'Bounds: listed carriers, default options + norm=True. Outside: other programs/option values.',
+    'Bounds: listed carriers and option sets, norm=True. A comment on an `else:` line is counted as part of the else keyword that goes with a fully removed block (interpretation, DESIGN.md section 12). Outside: other programs/option values.',
     'symbolic execution of get_slice/copy/cut with symbolic bounds; CPython re-parse of the extracted piece and token accounting as oracles; re-lettering templates',
     'DESIGN.md section 4 C07')
 chk('C08',
@@ -111,15 +112,15 @@ chk('C10',
     'symbolic execution of put_src/raw reparse with a symbolic rectangle; independent splice + CPython parse as oracle',
     'DESIGN.md section 4 C10')
 chk('C13',
-    'P1: 3 carriers x scripts of two pure-AST mutations (12 kinds: new node, node from another tree, delete/insert/swap/duplicate/move statements, rename, constant/operator change, sibling swap) at symbolic node ordinals, 1-2 mark/reconcile rounds: '
-    'result == CPython parse of its source incl. positions, structurally equal to the edited AST, unchanged source for the empty script, untouched top-level statements keep their exact text incl. comments. Finite script space, solver-enumerated. One defect fixed (8f3f48e).',
+    'P1: 4 carriers x scripts of two pure-AST mutations (18 kinds: new node, node from another tree, node POPPED from another tree, statements moved across list fields, delete/insert/swap/duplicate/move statements, rename, constant/operator change, constant changed to an equal value of another type, sibling swap) at symbolic node ordinals, 1-2 mark/reconcile rounds: '
+    'result == CPython parse of its source incl. positions, structurally equal to the edited AST, unchanged source for the empty script, untouched top-level statements keep their exact text incl. comments. Finite script space, solver-enumerated. Four defects fixed (8f3f48e, 0f56bb8, f4b4ec8, f42a72e).',
     'Bounds: listed carriers and mutation kinds, 2 mutations per round.',
     'finite-choice exploration of mutation scripts through the symbolic driver; oracle = CPython parse + dump equality with the edited AST',
     'DESIGN.md section 4 C13')
 chk('C15',
-    'P1: 4 carriers x 7 walk settings with a SYMBOLIC consumer schedule: at which yield (k over 0..40) which of 10 actions (replace/remove current node, parent, grand-parent, previous/next sibling, insert before) happens and what is sent back (none/False/True); '
-    'thorough: two events k1 < k2. Every yield alive, in this tree and not seen before on entry; termination bound; new children of a replacement walked next; final tree == CPython parse. P2: search() consumer replacing/removing matches.',
-    'Bounds: listed carriers, <= 2 mutation events. Outside: cut / raw edits during a walk (documented unsupported).',
+    'P1: 7 carriers x 7 walk settings (+ walks started at non-root nodes, so the walk root itself is mutated) with a SYMBOLIC consumer schedule: at which yield - entry AND leave yields - (k over 0..60) which of 10 actions (replace/remove current node, parent, grand-parent, previous/next sibling, insert before) happens and what is sent back (none/False/True); '
+    'thorough: two events k1 < k2. Every yield alive, in this tree and not seen before on entry (on leave for on=leave) unless re-walked by send(True); termination bound; new children of a replacement walked next; send(True) on a leave yield re-walks the children and yields the node again; no exception; final tree == CPython parse. P2: search() consumer replacing/removing matches.',
+    'Bounds: listed carriers, <= 2 mutation events. Two defects fixed (bc724e9, 74067c0); FST-object re-use after a norm collapse of a BoolOp listed as known findings. Outside: cut / raw edits during a walk (documented unsupported).',
     'symbolic execution of walk() under symbolic mutation schedules (bounded model checking over schedules)',
     'DESIGN.md section 4 C15')
 chk('C16',
@@ -130,9 +131,9 @@ chk('C16',
     'finite aliasing-pattern exploration through the symbolic driver; oracle = CPython symtable',
     'DESIGN.md section 4 C16')
 chk('C18',
-    'P1: 4 carriers x 4 (pattern, template) rows (single-node capture, slice capture, whole-match identity, name->attribute) with count symbolic in -2..12, nested and on=leave symbolic: '
-    'result == CPython parse incl. positions == a 40-line reference transformer on the pure AST (outermost first / captured nodes re-examined when nested / bottom-up on leave), reported counts == reference, comments outside substituted nodes conserved.',
-    'Lowest depth of the claimed properties: thin integer domain, finite choice otherwise (stated). Outside: loop, callbacks, other rows.',
+    'P1: 4 carriers x 5 (pattern, template) rows (single-node capture, slice capture, whole-match identity, name->attribute, slot inside a string literal) with count symbolic in -2..12, nested and on=leave symbolic: '
+    'result == CPython parse incl. positions == a 40-line reference transformer on the pure AST (outermost first / captured nodes re-examined when nested / bottom-up on leave), reported counts == reference, comments outside substituted nodes conserved. P1.sub_loop: loop budget symbolic 0..6.',
+    'Lowest depth of the claimed properties: thin integer domain, finite choice otherwise (stated). Known finding: string-slot fill leaves a stale Constant value (pinned by a golden test). Outside: callbacks, ctx/scope/back settings, other rows.',
     'symbolic-parameter exploration of subn(); oracle = reference AST transformer + CPython parse',
     'DESIGN.md section 4 C18')
 
